@@ -3,7 +3,7 @@ from checks import krill_common as kc
 
 PID = "C02"
 LEVEL = "model_checking"
-THEMES = "chain,roll,multi,mix".split(",")
+THEMES = "chain,roll,multi,mix,foreign".split(",")
 NEEDED = "ChildRes,Settled".split(",")
 
 RULE = (
@@ -57,11 +57,12 @@ def run(tier, seed):
         PID, LEVEL, tier, seed, THEMES,
         quick_num=14 if len(THEMES) > 1 else 30, thorough_num=250,
         assumptions=kc.COMMON_ASSUMPTIONS, rule=RULE, needed_events=NEEDED,
-        mc_cfgs=(['MC_Krill_q_chain.cfg', 'MC_Krill_q_life.cfg', 'MC_Krill_q_multi.cfg'] if tier == "quick" else ['MC_Krill_q_chain.cfg', 'MC_Krill_q_life.cfg', 'MC_Krill_q_multi.cfg', 'MC_Krill_chain.cfg', 'MC_Krill_life.cfg']),
+        mc_cfgs=(['MC_Krill_q_chain.cfg', 'MC_Krill_q_life.cfg', 'MC_Krill_q_multi.cfg', 'MC_Krill_q_foreign.cfg'] if tier == "quick" else ['MC_Krill_q_chain.cfg', 'MC_Krill_q_life.cfg', 'MC_Krill_q_multi.cfg', 'MC_Krill_q_foreign.cfg', 'MC_Krill_chain.cfg', 'MC_Krill_life.cfg']),
         directed=(DIRECTED + kc.MULTI_DIRECTED[:1]
                   + kc.clause("chain-shrink-after-suspension",
-                              "shrink-to-nothing")),
-        theme_nums={"multi": (6, 80), "mix": (4, 60)})
+                              "shrink-to-nothing", "foreign-limit-shrink",
+                              "foreign-limit-refused")),
+        theme_nums={"multi": (6, 80), "mix": (4, 60), "foreign": (6, 80)})
 
 
 def replay(path, seed):
